@@ -156,6 +156,15 @@ func (g *gen) genBadProvide(s int) Op {
 		if g.pct(40, "hr2") {
 			f.R = append(f.R, Result{T: "T1"})
 		}
+		if g.pct(30, "hrerr") {
+			// a well-formed result next to a concrete type that implements
+			// error: accepted, and the function runs when the key is asked for
+			f.R = []Result{{T: g.pickStr(g.k.Types, "hret")}, {Host: g.pickStr([]string{"HErrVal", "HErrPtr", "HErrSlice", "HErrInt", "HErrIface"}, "hrek")}}
+			if g.pct(50, "hrefirst") {
+				f.R[0], f.R[1] = f.R[1], f.R[0]
+			}
+			f.P = nil
+		}
 	case 8: // hostile parameter type
 		f.P = append(f.P, g.hostParam("hp"))
 	case 9: // malformed tag on a result-object field
